@@ -115,6 +115,11 @@ class C07(Harness):
             us.append({'kind': 'override', 'spec': [[2, '=1'], ['tb/', 2, '=1']]})
         for lines in (LINES_Q if tier == 'quick' else LINES_T):
             us.append({'kind': 'text', 'lines': lines})
+        # the vocabulary-sized templates also against schemas with single wildcard slots, abstract
+        # types and nesting
+        for sid in ('S3', 'S4', 'S6') if tier == 'quick' else ('S3', 'S4', 'S6', 'S8', 'S9', 'S13'):
+            for lines in LINES_Q[10:]:
+                us.append({'kind': 'text', 'lines': lines, 'schema': sid})
         for i, g in enumerate(graphs()):
             us.append({'kind': 'include', 'graph': i})
         for line in (INCL_Q if tier == 'quick' else INCL_T):
@@ -135,7 +140,7 @@ class C07(Harness):
             if unit['kind'] == 'text':
                 lines = common.assemble(unit['lines'], inp)
                 with P.mem_resources({}):
-                    r = P.run_load(XML['S2'], lines, url=P.MAIN)
+                    r = P.run_load(XML[unit.get('schema', 'S2')], lines, url=P.MAIN)
             elif unit['kind'] == 'inclarg':
                 from .. import instr
                 if instr.installed():
